@@ -32,6 +32,10 @@ PRIMES = sieve(65535)
 PSET = set(PRIMES)
 
 
+import functools
+
+
+@functools.lru_cache(maxsize=None)
 def modulus(lo, hi):
     p = 1
     for q in PRIMES:
